@@ -385,12 +385,23 @@ def fidelity_case(ctx, case, st=None):
         if perm is not None and "arg" in cap:  # the matrix over space[perm] is P A P^T: list it in canonical order for the comparison with the model
             inv = np.argsort(perm)
             cap["arg"] = cap["arg"][np.ix_(inv, inv)]
-        if out[0] != "ok" or "res" not in cap:
+        if out[0] != "ok":
             ctx.oracle("fidelity returns", False, case, detail={"error": out[1], "eigvals_called": "res" in cap}, sig=sig0 + "/raises")
             return
         F = out[1]
         N = 2 ** s["n"]
-        if ctx.driver is not None:
+        spied = "res" in cap
+        if not spied:
+            # an implementation that does not go through np.linalg.eigvals (HOW the spectrum is obtained is not part of the property): the
+            # eigenvalues the model needs are computed here from target * rho_hat; the two auxiliary points on the external call are skipped
+            ctx.count("fidelity.dens:np.linalg.eigvals_not_called")
+            cap["arg"] = T @ rho_hat
+            cap["res"] = np.array(orig(cap["arg"]), dtype=complex)
+        if ctx.driver is not None and not spied:
+            m = ctx.driver.call("c10.fidelity", **state_req(s), target={"re": bits(T.real), "im": bits(T.imag)},
+                                eig=[[f2b(l.real), f2b(l.imag)] for l in cap["res"]])
+            compare_res(ctx, "fidelity", out, m["res"], case, 1.0, THEOREMS["fid_mixed"], sig0)
+        elif ctx.driver is not None:
             m = ctx.driver.call("c10.fidelity", **state_req(s), target={"re": bits(T.real), "im": bits(T.imag)},
                                 eig=[[f2b(l.real), f2b(l.imag)] for l in cap["res"]])
             ctx.point("Z", "aux", [Z], unbits([m["Z"]]), case, scale=Z)
@@ -402,7 +413,7 @@ def fidelity_case(ctx, case, st=None):
         A = cap["arg"]
         sc = max(1.0, float(np.max(np.abs(A)))) ** N
         res = max(abs(np.linalg.det(A - l * np.eye(N))) for l in cap["res"])
-        ctx.oracle("eigvals satisfy det(A - l I) = 0", res <= 1e-9 * sc and abs(np.sum(cap["res"]) - np.trace(A)) <= 1e-9 * max(1, abs(np.trace(A))),
+        ctx.oracle("eigvals satisfy det(A - l I) = 0", (not spied) or res <= 1e-9 * sc and abs(np.sum(cap["res"]) - np.trace(A)) <= 1e-9 * max(1, abs(np.trace(A))),
                    case, detail={"residual": float(res)}, sig=sig0 + "/charpoly")
         ctx.oracle("fidelity kind is a real number", out[2] in ("float", "float64"), case, detail={"type": out[2]}, sig=sig0 + "/kind-oracle", theorem="C10_kind")
         U = uhlmann(rho_hat, T)
